@@ -81,6 +81,7 @@ type cev struct {
 }
 
 type cacheWorld struct {
+	lost map[int]bool // keys whose file the harness removed at some point (disk fault "vanish")
 	p     *CachePlan
 	sim   *zzsim.Sched
 	c     cache.Cache[CMeta]
@@ -239,11 +240,7 @@ func (w *cacheWorld) exec(a, i int, op COp) {
 		w.end(e, err)
 	case "get":
 		e := w.begin(a, i, op)
-		if op.DiskFault == "vanish" && w.p.Backend == "file" {
-			if os.Remove(filepath.Join(w.dir, "cache", w.key(op.Key).Hex)) == nil {
-				w.res.fault("disk_vanish")
-			}
-		}
+		w.vanish(op)
 		w.sim.MarkOp()
 		ent, err := w.c.Get(w.key(op.Key))
 		if err == nil {
@@ -253,6 +250,7 @@ func (w *cacheWorld) exec(a, i int, op COp) {
 		w.end(e, err)
 	case "del":
 		e := w.begin(a, i, op)
+		w.vanish(op)
 		w.end(e, w.c.Delete(w.key(op.Key)))
 	case "upd":
 		e := w.begin(a, i, op)
@@ -289,6 +287,21 @@ func (w *cacheWorld) exec(a, i int, op COp) {
 		w.destr = true
 		w.c.Destroy()
 		w.end(e, nil)
+	}
+}
+
+// vanish loses the file of the operation's key behind the cache's back. From then on the entry is
+// listed but cannot be read, until the cache removes or replaces it.
+func (w *cacheWorld) vanish(op COp) {
+	if op.DiskFault != "vanish" || w.p.Backend != "file" {
+		return
+	}
+	if os.Remove(filepath.Join(w.dir, "cache", w.key(op.Key).Hex)) == nil {
+		w.res.fault("disk_vanish")
+		if w.lost == nil {
+			w.lost = map[int]bool{}
+		}
+		w.lost[op.Key] = true
 	}
 }
 
@@ -331,6 +344,8 @@ type cacheSnapshot struct {
 	DirFiles   map[string]int64
 	DirErr     error
 	ReadErrors []string
+	LostB      int64 // entries still listed whose file the harness removed (disk fault "vanish"): recorded bytes
+	LostN      int
 }
 
 func (w *cacheWorld) snapshot() *cacheSnapshot {
@@ -339,6 +354,15 @@ func (w *cacheWorld) snapshot() *cacheSnapshot {
 		ent, err := w.c.Get(w.key(k))
 		if err != nil {
 			if !errors.Is(err, cache.ErrCacheEntryNotFound) {
+				if w.lost[k] {
+					// the harness took this entry's file away: as long as the cache lists the entry, what it
+					// recorded for it is still counted; once the entry is removed, nothing of it is
+					if m, _, merr := w.c.GetMetadata(w.key(k)); merr == nil {
+						sn.LostB += m.Size
+						sn.LostN++
+					}
+					continue
+				}
 				sn.ReadErrors = append(sn.ReadErrors, fmt.Sprintf("k%d: %v", k, err))
 			}
 			continue
@@ -594,6 +618,9 @@ func opSig(p *CachePlan) string {
 				s += ")"
 			case "get", "del", "upd", "meta":
 				s += fmt.Sprintf("(k%d)", op.Key)
+				if op.DiskFault != "" {
+					s = strings.TrimSuffix(s, ")") + "," + op.DiskFault + ")"
+				}
 			}
 			a = append(a, s)
 		}
@@ -741,14 +768,19 @@ func judgeCache(w *cacheWorld, res *Result, snaps []*cacheSnapshot) {
 		if len(sn.ReadErrors) > 0 {
 			res.violate("C12.a", p.Backend+" unreadable-entry "+where, "entries the cache lists cannot be read: %v [%s]", sn.ReadErrors, sig)
 		}
-		if sn.Reported != sn.ActualB {
-			res.violate("C12.a", p.Backend+" reported-bytes "+where, "reported size %d != %d bytes actually retrievable (internal counter %d) [%s]", sn.Reported, sn.ActualB, sn.Internal, sig)
+		lostNote := ""
+		if sn.LostN > 0 {
+			lostNote = fmt.Sprintf(" plus %d bytes of %d listed entries whose file was lost", sn.LostB, sn.LostN)
+			res.Probes["lost_file_still_listed"]++
 		}
-		if sn.Internal != sn.ActualB {
-			res.violate("C12.a", p.Backend+" internal-bytes "+where, "size used for eviction %d != %d bytes actually retrievable [%s]", sn.Internal, sn.ActualB, sig)
+		if sn.Reported != sn.ActualB+sn.LostB {
+			res.violate("C12.a", p.Backend+" reported-bytes "+where, "reported size %d != %d bytes actually retrievable%s (internal counter %d) [%s]", sn.Reported, sn.ActualB, lostNote, sn.Internal, sig)
 		}
-		if sn.Entries != int64(sn.ActualN) {
-			res.violate("C12.a", p.Backend+" reported-entries "+where, "reported entry count %d != %d entries actually retrievable [%s]", sn.Entries, sn.ActualN, sig)
+		if sn.Internal != sn.ActualB+sn.LostB {
+			res.violate("C12.a", p.Backend+" internal-bytes "+where, "size used for eviction %d != %d bytes actually retrievable%s [%s]", sn.Internal, sn.ActualB, lostNote, sig)
+		}
+		if sn.Entries != int64(sn.ActualN+sn.LostN) {
+			res.violate("C12.a", p.Backend+" reported-entries "+where, "reported entry count %d != %d entries actually retrievable%s [%s]", sn.Entries, sn.ActualN, lostNote, sig)
 		}
 		if sn.MetaSum != sn.ActualB {
 			res.violate("C12.a", p.Backend+" metadata-size "+where, "sum of Metadata.Size %d != %d bytes retrievable [%s]", sn.MetaSum, sn.ActualB, sig)
@@ -1031,11 +1063,15 @@ func genCachePlan(r *rand.Rand, family string) *CachePlan {
 					op.RChunk = []int{7, 512, 4096, 32768}[r.IntN(4)]
 					op.ReadAt = r.IntN(3) == 0
 				}
-				if family == "vanish" && r.IntN(4) == 0 {
+				if family == "cntdisk" && r.IntN(5) == 0 {
 					op.DiskFault = "vanish"
 				}
 			case x < 85:
 				op.Kind = "del"
+				if family == "cntdisk" && r.IntN(4) == 0 {
+					// the entry's file is lost (a disk fault, an operator tidying up) before the entry is deleted
+					op.DiskFault = "vanish"
+				}
 			case x < 90:
 				op.Kind = "upd"
 				op.TTLMs = int64(100 * time.Hour / time.Millisecond)
